@@ -125,6 +125,76 @@ def regression_messages(s):
     return out
 
 
+class JSchema(msggen.Schema):
+    """msggen.Schema plus REPEATED WRAPPER fields (`repeated google.protobuf.BytesValue x = 1;` -> List[...] with meta.wraps):
+    a Field of card "repeated" carrying the attribute wraps_rep = True.  msggen's value generators see a repeated scalar."""
+
+    def _build(self):
+        import dataclasses
+        import sys
+        import types
+        from datetime import datetime, timedelta
+        from typing import Dict, List, Optional
+        import betterproto as bp
+        msggen.Schema._counter += 1
+        self.modname = f"verif_schema_{msggen.Schema._counter}"
+        mod = types.ModuleType(self.modname)
+        sys.modules[self.modname] = mod
+        self.mod = mod
+        mod.__dict__.update({"List": List, "Dict": Dict, "Optional": Optional, "datetime": datetime, "timedelta": timedelta})
+        for i, members in enumerate(self.enums):
+            en = type(bp.Enum)(f"E{i}", (bp.Enum,), dict(members, __module__=self.modname))
+            setattr(mod, f"E{i}", en)
+            self.pyenums.append(en)
+        for c in self.classes:
+            fl = []
+            for f in c.fields:
+                t = self._pytype(f.elem)
+                rep_wrap = getattr(f, "wraps_rep", False)
+                if f.card in ("optional", "wrapper"):
+                    ann = Optional[t]
+                elif f.card == "repeated":
+                    ann = List[t]
+                elif f.card == "map":
+                    ann = Dict[self._pytype(f.key), t]
+                else:
+                    ann = t
+                group = None if f.group is None else f"g{f.group}"
+                df = bp.dataclass_field(
+                    f.number, "message" if rep_wrap else f.proto_type,
+                    map_types=(f.key.pt, f.elem.pt) if f.card == "map" else None,
+                    group=group,
+                    wraps=f.elem.pt if (f.card == "wrapper" or rep_wrap) else None,
+                    optional=f.card == "optional")
+                fl.append((f.name, ann, df))
+            py = dataclasses.make_dataclass(c.name, fl, bases=(bp.Message,), eq=False, repr=False)
+            py.__module__ = self.modname
+            setattr(mod, c.name, py)
+            c.py = py
+        self.index_of = {c.py: msggen.NBUILTIN + i for i, c in enumerate(self.classes)}
+
+    def _field(self, f):
+        lit = super()._field(f)
+        if getattr(f, "wraps_rep", False):
+            pt = msggen.PT[f.elem.pt]
+            # (mkF name num TYPE fmap grp wraps opt hint entry): message-typed, wraps set
+            lit = lit.replace(f")%Z {pt} None None None false (HList", f")%Z TMessage None None (Some {pt}) false (HList", 1)
+            assert "TMessage None None (Some" in lit, lit
+        return lit
+
+
+def wrapper_schema():
+    """singular and repeated wrapper fields of every wrappable type (not a wf_schema: WellFormed has no repeated wrappers)"""
+    fields = []
+    for i, w in enumerate(msggen.WRAPPABLE):
+        f = msggen.Field(f"rw_{w}", i + 1, "repeated", msggen.scalar(w))
+        f.wraps_rep = True
+        fields.append(f)
+    for i, w in enumerate(msggen.WRAPPABLE):
+        fields.append(msggen.Field(f"w_{w}", 20 + i, "wrapper", msggen.scalar(w)))
+    return JSchema([msggen.Cls("KRepWrapper", fields)], [[("ZERO", 0)]])
+
+
 def recursive_classes(s):
     """classes from which a cycle of message-typed fields is reachable: materialising the defaults there never ends"""
     edges = {i: {f.elem.ref for f in c.fields if f.elem.kind == "msg"} for i, c in enumerate(s.classes)}
@@ -159,7 +229,8 @@ def make_lazy(s, ci, m):
 def run(ctx):
     import betterproto as bp
     rng = ctx.rng
-    schemas = [msggen.matrix_schema()] + [msggen.random_schema(rng) for _ in range(5 if not ctx.thorough else 40)]
+    schemas = [msggen.matrix_schema()] + [msggen.random_schema(rng) for _ in range(5 if not ctx.thorough else 40)] + [wrapper_schema()]
+    not_wf = {len(schemas) - 1}
     prelude = "\n".join(f"Definition sc{i} : schema := {s.coq()}." for i, s in enumerate(schemas))
     pairs, meta = [], []
     n_per = (40 if not ctx.thorough else 400)
@@ -168,7 +239,7 @@ def run(ctx):
     # schema-level side conditions of the theorems hold on what is generated
     for si, s in enumerate(schemas):
         pairs.append((f"CL [cbool (wf_schema sc{si}); cbool (keys_ok CAMEL sc{si}); cbool (keys_ok SNAKE sc{si})]",
-                      cl([cbool(True), cbool(True), cbool(True)])))
+                      cl([cbool(si not in not_wf), cbool(True), cbool(True)])))
         meta.append((si, None, None, "schema", None))
 
     def one_case(si, s, ci, m, tag, in_range, other):
@@ -234,10 +305,12 @@ def run(ctx):
         add(f"cbool (json_supported sc{si} o)", cbool(supported))
         add(f"cbool (oneof_ok sc{si} o)", cbool(clean))
         in_range = jsongen.in_range(s, m)
-        add(f"cbool (in_range sc{si} o)", cbool(in_range))
+        wf = si not in not_wf
+        if wf:
+            add(f"cbool (in_range sc{si} o)", cbool(in_range))
         # ---- the normal form of the theorems is what the implementation builds
         d = dicts.get(("CAMEL", False))
-        if supported and clean and in_range and d is not None:
+        if wf and supported and clean and in_range and d is not None:
             add(f"cv_of_obj (norm_obj sc{si} o)", snap(s, lambda: cls.from_dict(d)))
         pairs.append((f"(let o := {lit} in let dCAMEL := to_dict CAMEL false sc{si} o in let dSNAKE := to_dict SNAKE false sc{si} o in CL ["
                       + "; ".join(model) + "])",
@@ -245,7 +318,7 @@ def run(ctx):
         meta.append((si, ci, m, tag, feats))
         ctx.cov["evaluations"] += 1
         ctx.count("cases")
-        if supported and clean and in_range:
+        if wf and supported and clean and in_range:
             ctx.count("meets_all_theorem_hypotheses")
         for ft in feats:
             ctx.count("feature:" + ft)
@@ -302,6 +375,15 @@ def run(ctx):
     for tag, m in regression_messages(s0):
         try:
             one_case(0, s0, idx[type(m)], m, tag, True, None)
+        except (msggen.Unmodellable, RecursionError):
+            ctx.count("unmodellable")
+    sw = schemas[-1]
+    RW = sw.classes[0].py
+    for tag, m in [("repeated-wrapper-empty", RW()),
+                   ("repeated-wrapper-values", RW(rw_bytes=[b"ab", b""], rw_int64=[2 ** 40, 0, -1], rw_double=[float("inf"), 1.5],
+                                                  rw_string=["", "x"], rw_bool=[True, False], rw_uint64=[2 ** 64 - 1], w_bytes=b"x"))]:
+        try:
+            one_case(len(schemas) - 1, sw, 0, m, tag, True, None)
         except (msggen.Unmodellable, RecursionError):
             ctx.count("unmodellable")
     for si, s in enumerate(schemas):
